@@ -3,11 +3,15 @@
 #[macro_use]
 extern crate rdp;
 
+pub mod client;
+pub mod gen;
 pub mod mon;
 pub mod props;
 pub mod refs;
 pub mod report;
 pub mod rng;
+pub mod server;
+pub mod tls;
 pub mod transport;
 
 use report::Report;
@@ -35,6 +39,8 @@ pub struct Cfg {
     pub profile: String,
     /// scale factor for workload sizes (1.0 = as designed); used by smoke runs
     pub scale: f64,
+    /// run only this workload class (debugging aid)
+    pub only_class: Option<u64>,
 }
 
 impl Cfg {
@@ -44,6 +50,9 @@ impl Cfg {
     pub fn n(&self, quick: u64, thorough: u64) -> u64 {
         let b = if self.quick() { quick } else { thorough };
         ((b as f64) * self.scale).max(1.0) as u64
+    }
+    pub fn wants(&self, class: u64) -> bool {
+        self.only_class.map(|c| c == class).unwrap_or(true)
     }
     pub fn is_debug_build(&self) -> bool {
         cfg!(debug_assertions)
